@@ -196,15 +196,19 @@ class Snapshot(HarnessBase):
                     f = z3.RealVal(si.SI[KIND[var]][DEFAULT_UNITS[var]] / si.SI[KIND[var]][self._unit(var)])
                 s = [T(rec['hist']['%d|%s|%d' % (ei, var, k)]) * f for k in range(n)]
                 # piecewise-linear interpolation of the neighbouring samples (on the grid: the sample itself)
-                cases = []
+                cases, rcases = [], []
                 for k in range(n - 1):
                     lo, hi = times[k], times[k + 1]
                     interp = s[k] + (s[k + 1] - s[k]) * (tt - lo) / (hi - lo)
-                    if self.units or self.time_units:
-                        cases.append(z3.And(tt >= lo, tt <= hi, close(cell, interp, 1e-9, 0.0, (s[k], s[k + 1]))))
-                    else:
-                        cases.append(z3.And(tt >= lo, tt <= hi, cell == interp))
-                obs.append(holds('snap.value_is_sample_or_interpolation[%s,%s]' % (name, var), z3.Or(cases)))
+                    # robust reading: relative to the two samples, the instants' own rounding (they may sit far from 0:
+                    # tt - lo cancels) included through a 1e-9 band on the bracket
+                    tband = z3.RealVal(Fraction(1, 10 ** 9)) * (zabs(lo) + zabs(hi))
+                    rc = z3.And(tt >= lo - tband, tt <= hi + tband, close(cell, interp, 1e-9, 0.0, (s[k], s[k + 1])))
+                    rcases.append(rc)
+                    cases.append(rc if (self.units or self.time_units) else z3.And(tt >= lo, tt <= hi, cell == interp))
+                from symx.ob import Ob
+                # exact on proxies; the robust reading serves the evaluation on concrete (double) runs
+                obs.append(Ob('snap.value_is_sample_or_interpolation[%s,%s]' % (name, var), z3.Or(cases), z3.Or(rcases)))
         return obs
 
 
